@@ -531,6 +531,57 @@ func (w *world) distinctCases() {
 	c.close()
 	w.sink.Add(fmt.Sprintf("CDistinct %d %d %d", n, len(frames), len(nonces)), fmt.Sprintf("distinct/live/all-distinct=%v", len(frames) == n && len(nonces) == n),
 		map[string]any{"kind": "distinct", "seals": n, "distinct_frames": len(frames), "distinct_nonces": len(nonces), "note": "measurement of the random-nonce claim on a live connection"})
+	// both directions of one live connection share the session key: the frames and nonces of the two senders together
+	// must be pairwise distinct (the same packet sealed at both ends must never give the same frame)
+	n2 := 2000
+	c = w.dial(w.A, w.B)
+	frames, nonces = map[string]bool{}, map[string]bool{}
+	type rd struct{ f, n []string }
+	res := make(chan rd, 2)
+	for _, s := range []*rsock{c.ra, c.rb} {
+		go func(s *rsock) {
+			var r rd
+			for i := 0; i < n2; i++ {
+				raw := s.next("seal")
+				if raw == nil {
+					fatal("connection closed during the two-direction distinctness run")
+				}
+				r.f = append(r.f, string(raw))
+				r.n = append(r.n, string(raw[4:16]))
+			}
+			res <- r
+		}(s)
+	}
+	for i := 0; i < n2; i++ {
+		w.A.send(p)
+		w.B.send(p)
+	}
+	for k := 0; k < 2; k++ {
+		r := <-res
+		for i := range r.f {
+			frames[r.f[i]] = true
+			nonces[r.n[i]] = true
+		}
+	}
+	c.close()
+	w.sink.Add(fmt.Sprintf("CDistinct %d %d %d", 2*n2, len(frames), len(nonces)), fmt.Sprintf("distinct/live-both-directions/all-distinct=%v", len(frames) == 2*n2 && len(nonces) == 2*n2),
+		map[string]any{"kind": "distinct", "seals": 2 * n2, "distinct_frames": len(frames), "distinct_nonces": len(nonces), "note": "the same packet sealed by both ends of one live connection (one session key)"})
+	// two Cipher values over one key (what the two ends of a connection hold)
+	{
+		var key [32]byte
+		copy(key[:], w.rng.Bytes(32))
+		c1, _ := bitcrypto.NewCipher(key)
+		c2, _ := bitcrypto.NewCipher(key)
+		frames, nonces = map[string]bool{}, map[string]bool{}
+		for i := 0; i < n; i++ {
+			e1, _ := c1.Encrypt(p.Data)
+			e2, _ := c2.Encrypt(p.Data)
+			frames[string(e1)], frames[string(e2)] = true, true
+			nonces[string(e1[:12])], nonces[string(e2[:12])] = true, true
+		}
+		w.sink.Add(fmt.Sprintf("CDistinct %d %d %d", 2*n, len(frames), len(nonces)), fmt.Sprintf("distinct/two-ciphers-one-key/all-distinct=%v", len(frames) == 2*n && len(nonces) == 2*n),
+			map[string]any{"kind": "distinct", "seals": 2 * n, "distinct_frames": len(frames), "distinct_nonces": len(nonces), "note": "Cipher.Encrypt of one plaintext by two Cipher values made from the same key"})
+	}
 	// and on the Cipher alone
 	var key [32]byte
 	copy(key[:], w.rng.Bytes(32))
